@@ -33,6 +33,7 @@
 // result: "<ret> <hex of the characters handed to the callback>"
 #include "common/hv.h"
 #include <cstdarg>
+#include <sys/wait.h>
 #include <climits>
 #include <memory>
 #include <algorithm>
@@ -432,6 +433,23 @@ static Parsed classify(const bytes &f, const std::vector<Arg> &args)
 static std::string former_finding_class(const Parsed &P, const std::vector<Arg> &args);
 static std::string res(long ret, const bytes &out) { return std::to_string(ret) + " " + hex(out); }
 
+// Every op is executed behind the same short history of calls through each entry point (state that leaked
+// from an earlier call - a static buffer, a counter that is not re-initialised - then shows in a one-op replay too).
+static void prime(out &o)
+{
+    exact_buf b(16);
+    int r1 = igv_snprintf((char *)b.p, 16, "q%d", 7); // leaves 13 unused places
+    bool ok = r1 == 2 && !memcmp(b.p, "q7", 3);
+    int r2 = igv_sprintf((char *)b.p, "p%s", "rs");
+    ok = ok && r2 == 3 && !memcmp(b.p, "prs", 4);
+    g_fd_out.clear();
+    g_fd_limit = -1;
+    int r3 = fdprintf(7, "t%c", 'u');
+    ok = ok && r3 == 2 && g_fd_out.size() == 2 && g_fd_out[0] == 't' && g_fd_out[1] == 'u';
+    g_fd_out.clear();
+    if (!ok) o.fail("the priming calls (snprintf q%d / sprintf p%s / fdprintf t%c) gave wrong results");
+}
+
 static void run_one(const std::vector<std::string> &w, out &o)
 {
     if (w.empty())
@@ -439,6 +457,7 @@ static void run_one(const std::vector<std::string> &w, out &o)
         o.result = "bad-op";
         return;
     }
+    prime(o);
     const std::string &op = w[0];
     size_t k = 1;
     long limit = -1;
@@ -843,13 +862,56 @@ struct PremainRunner
 {
     PremainRunner()
     {
+        // only in `run` mode (argv is not available to a constructor: /proc/self/cmdline)
+        char cl[256] = {0};
+        FILE *fp = fopen("/proc/self/cmdline", "r");
+        size_t got = fp ? fread(cl, 1, sizeof cl - 1, fp) : 0;
+        if (fp) fclose(fp);
+        size_t a0 = strnlen(cl, got);
+        if (a0 + 1 >= got || strcmp(cl + a0 + 1, "run") != 0)
+            return;
+        // the calls run in a forked child (still before main()): if one of them aborts, the parent lives on and
+        // the `premain k` op reports it, instead of the whole harness dying in front of every op
         for (int k = 0; k < NPREMAIN; k++)
         {
-            out o;
-            run_one(words(PREMAIN[k]), o);
-            snprintf(g_premain[k].result, sizeof g_premain[k].result, "%s", o.result.c_str());
-            snprintf(g_premain[k].oracle, sizeof g_premain[k].oracle, "%s", o.oracle.c_str());
+            snprintf(g_premain[k].result, sizeof g_premain[k].result, "CRASH before main()");
+            snprintf(g_premain[k].oracle, sizeof g_premain[k].oracle, "FAIL crash in a call made before main()");
         }
+        int fd[2];
+        if (pipe(fd) != 0) return;
+        fflush(stdout);
+        pid_t pid = fork();
+        if (pid == 0)
+        {
+            close(fd[0]);
+            for (int k = 0; k < NPREMAIN; k++)
+            {
+                out o;
+                run_one(words(PREMAIN[k]), o);
+                PremainRec rec;
+                memset(&rec, 0, sizeof rec);
+                snprintf(rec.result, sizeof rec.result, "%s", o.result.c_str());
+                snprintf(rec.oracle, sizeof rec.oracle, "%s", o.oracle.c_str());
+                if (write(fd[1], &rec, sizeof rec) != (ssize_t)sizeof rec) _exit(3);
+            }
+            _exit(0);
+        }
+        close(fd[1]);
+        for (int k = 0; k < NPREMAIN && pid > 0; k++)
+        {
+            PremainRec rec;
+            size_t have = 0;
+            while (have < sizeof rec)
+            {
+                ssize_t n = read(fd[0], (char *)&rec + have, sizeof rec - have);
+                if (n <= 0) break;
+                have += (size_t)n;
+            }
+            if (have != sizeof rec) break;
+            g_premain[k] = rec;
+        }
+        close(fd[0]);
+        if (pid > 0) waitpid(pid, 0, 0);
     }
 };
 static PremainRunner g_premain_runner __attribute__((init_priority(101)));
